@@ -32,8 +32,9 @@ THEOREMS = [
     "PorepyVerif.C02.shiftTime_no_current",
     "PorepyVerif.C02.shiftIter_no_current",
     "PorepyVerif.C02.const_add_keeps_jacobian",
+    "PorepyVerif.C02.directBin_add_comm",
     "PorepyVerif.C02.reverse_build",
-    "PorepyVerif.C02.reverse_build_tree",
+    "PorepyVerif.C02.reverse_build_parse",
 ]
 LEAN_MODULES = ["PorepyVerif.C02.Props"]
 AUDIT = "PorepyVerif/C02/Audit.lean"
@@ -75,6 +76,8 @@ ASSUMPTIONS = [
     "environment well-formedness for md-variables at previous indices: stored global vectors have the length of the state",
     "reverse_build for `+`: the operator operand evaluates to a number, vector, matrix or AdArray (not an ArraySlicer)",
 ]
+
+
 DISABLED = True
 
 OPS = {"add": operator.add, "sub": operator.sub, "mul": operator.mul, "div": operator.truediv, "pow": operator.pow,
